@@ -24,12 +24,16 @@ def classify(prop, codemod, before, after1, after2):
     """Finding classes (narrow, decidable on the input)."""
     name = codemod.split("/")[-1]
     if prop == "C01" and name == "lazy-logging":
-        # a single-quoted literal containing a double quote (or vice versa is fine) concatenated with `+`
+        # some un-prefixed string literal whose raw content cannot stand between double quotes as it is
+        # (the complement of the guard of theorem C01_requote_lexes; same predicate as Model/StrLit.v dq_safe)
         import io, tokenize
+        from harness.c01_strlit import dq_safe
         try:
             for t in tokenize.generate_tokens(io.StringIO(before).readline):
-                if t.type == tokenize.STRING and t.string[-1] == "'" and '"' in t.string[1:-1]:
-                    return "kf_lazy_logging_quote"
+                if t.type == tokenize.STRING and t.string[0] in "'\"":
+                    q = t.string[:3] if t.string[:3] in ("'''", '"""') else t.string[:1]
+                    if not dq_safe(t.string[len(q):-len(q)]):
+                        return "kf_lazy_logging_quote"
         except Exception:
             pass
     if prop == "C07" and after1 is not None:
